@@ -130,7 +130,9 @@ def flow_leaves(fn, expr):
     """leaves of an expression with local variables replaced (transitively) by what flows into them: initialiser, assignments, += / append"""
     decls = {d.get('n'): d for s2 in walk(fn.get('body'), lambda n: n.get('k') == 'Decl', []) for d in s2.get('decls', [])}
     out = []; seen = set()
+    flow_leaves.exprs = exprs = []       # every expression that flows into the result (the expression itself, initialisers, right-hand sides)
     def add(e):
+        if e is not None: exprs.append(e)
         for lf in leaves(e):
             if lf[0] == 'ref' and lf[1] in decls and lf[1] not in seen:
                 seen.add(lf[1])
@@ -142,6 +144,9 @@ def flow_leaves(fn, expr):
             elif lf not in out: out.append(lf)
     add(expr)
     return out
+
+
+UNIVERSE_MESSAGES = {'vu::P1m': 'p1', 'vu::P1a': 'p1 as an array'}       # mirrors universe/u_dispatch.cc
 
 
 def check_normal_raise(db, fn):
@@ -160,10 +165,21 @@ def check_normal_raise(db, fn):
     if not ctor: probs.append('does not throw a parse_error'); return probs
     args = ctor[0].get('args', [])
     if len(args) < 2: probs.append('parse_error is constructed from %d arguments' % len(args)); return probs
-    l0 = flow_leaves(fn, args[0]); l1 = flow_leaves(fn, args[1])
+    l0 = flow_leaves(fn, args[0]); msg_exprs = list(flow_leaves.exprs); l1 = flow_leaves(fn, args[1])
     p0 = fn['params'][0]['n'] if fn['params'] else None
     if has_msg:
         if ('ref', 'error_message') not in l0: probs.append('the rule has an error_message but the parse_error message is built from %s' % l0)
+        # the whole message: a std::string built from error_message with an explicit length must take all of it (the universe's messages: UNIVERSE_MESSAGES)
+        for x in msg_exprs:
+            for c in walk(x, lambda n: n.get('k') == 'construct' and 'basic_string' in (n.get('t') or '') and len(n.get('args', [])) >= 2 and ('ref', 'error_message') in leaves(n['args'][0]), []):
+                n1 = c['args'][1]
+                if 'int' not in (n1.get('t') or '') and 'long' not in (n1.get('t') or ''): continue        # ( pointer, allocator ) and the like
+                want = UNIVERSE_MESSAGES.get(rule)
+                if want is None: continue                    # messages of other rules are not mirrored here: judged on the universe's two forms (pointer, array)
+                if n1.get('v') is None: continue             # a length computed at run time (strlen): not judged here
+                k = int(n1['v'])
+                if k < len(want): probs.append('the message is cut to %d characters: "%s" instead of "%s"' % (k, want[:k], want))
+                elif k > len(want): probs.append('%d characters are taken from the %d-character message "%s" (the length does not come from the text: sizeof of a pointer?)' % (k, len(want), want))
     else:
         if ('str', 'parse error matching ') not in l0 or ('call', 'demangle') not in l0: probs.append('the default message is not "parse error matching " + demangle< Rule >(); built from %s' % l0)
         dm = walk(fn.get('body'), lambda n: n.get('k') == 'call' and n.get('cn') == 'demangle', [])
